@@ -997,6 +997,17 @@ def _poison(font, kind, keep):
     raise ValueError(kind)
 
 
+def safe_digest(path):
+    """pc.tree_digest, or a description of why the UFO at path cannot be read (a destination that an earlier failed
+    save damaged must not crash the run: that is a finding, reported where it happened)"""
+    if not os.path.lexists(path):
+        return {"<gone>": True}
+    try:
+        return pc.tree_digest(path)
+    except Exception as e:
+        return {"<unreadable>": type(e).__name__}
+
+
 def raw_snapshot(path):
     """what lies at a path, byte for byte and kind for kind (no UFO reader involved: a truncated zip or a half-filled
     directory must be describable): None, ("link", target), ("file", md5) or ("dir", {relative path: md5 | None})"""
@@ -1165,7 +1176,7 @@ class Run(object):
         """(path argument or None, existed before, digest before); existing: structure of the UFO that lies at the
         destination of an overwriting save (default: the structure that is written)"""
         if mode == "inplace":
-            return None, self.font.path, pc.tree_digest(self.font.path)
+            return None, self.font.path, safe_digest(self.font.path)
         p = self.new_path(structure)
         if mode == "over":
             other = fg.gen_font(_random.Random(len(p) + t), 2, 3)
@@ -1358,7 +1369,7 @@ def run_font(case, tmpd):
             if viol:
                 continue
             if conv and existed is not None:
-                after = pc.tree_digest(existed) if os.path.exists(existed) else {"<gone>": True}
+                after = safe_digest(existed)
                 if after != before:
                     ch = sorted(x for x in set(before) | set(after) if before.get(x) != after.get(x))
                     V("destination-damaged", "%s/%s" % (mode, kind), step=i, op=op, changed=ch[:8], raised=raised)
